@@ -5,11 +5,13 @@ import GdModel.Driver.Tok
 import GdModel.Driver.Disk
 import GdModel.Driver.Index
 import GdModel.Driver.Restructure
+import GdModel.Driver.Names
 open GdModel.Driver
 
 structure St where
   db : DB := []
   spec : Bool := false
+  names : List GdModel.Names.Key := []
 
 def step (st : St) (line : String) : St × String :=
   match words line with
@@ -21,6 +23,9 @@ def step (st : St) (line : String) : St × String :=
     | none => (st, "bad-def")
   | "tok" :: rest => (st, handleTok st.spec rest)
   | "escape" :: rest => (st, handleEscape rest)
+  | "names" :: rest =>
+    let (t, o) := handleNames st.names rest
+    ({ st with names := t }, o)
   | "reset" :: _ => ({ st with db := [] }, "-")
   | "open" :: _ => (st, "open e=0")
   | "get" :: rest =>
